@@ -1237,6 +1237,34 @@ impl<'a, 'b> Gen<'a, 'b> {
 
     fn local_stmt(&mut self, d: usize) -> Stmt {
         self.stat("local");
+        if self.fns.last().map(|f| f.sig.vararg).unwrap_or(false) && self.t.bool(48) {
+            // `local a, b = ...` directly followed by another local and a use of all of them: the bare
+            // `...` supplies every variable of the first statement
+            self.stat("local_vararg_supplies_several_then_local");
+            let k = 2 + self.t.choose(2);
+            let mut names = vec![];
+            for _ in 0..k {
+                self.counter += 1;
+                names.push(format!("w{}", self.counter));
+            }
+            self.counter += 1;
+            let next = format!("w{}", self.counter);
+            let mut values = vec![];
+            if k == 3 && self.t.bool(100) {
+                values.push(self.small_int());
+            }
+            values.push(Expr::Vararg);
+            for n in &names {
+                self.declare(n, Kind::Any, true);
+            }
+            self.declare(&next, Kind::Num, true);
+            let v = self.small_int();
+            self.pending.push(Stmt::Local { is_const: false, names: vec![Binding::new(next.clone())], values: vec![v] });
+            let mut args: Vec<Expr> = names.iter().map(|n| nm(n)).collect();
+            args.push(nm(&next));
+            self.pending.push(Stmt::Call(callg("emit", args)));
+            return Stmt::Local { is_const: false, names: names.into_iter().map(Binding::new).collect(), values };
+        }
         let n = self.t.weighted(&[8, 3, 1]) + 1;
         let mut kinds = vec![];
         let mut values = vec![];
